@@ -68,12 +68,22 @@ def run_race(case, prefix):
             if len(w.server_out[i]) > 0:
                 w.deliver(i, len(w.server_out[i]))
 
-    sc.run_phase([("net", net)], timeout=900.0)
-    setup_points = len(sc.points)
-    ok = w.state() == "transport" and w.responders[0].phase == "transport"
+    early = case.get("early", False)      # the application disconnects while the first login is still in progress
     sent = [H.out_stanza(k, "r") for k in range(case.get("nsend", 1))]
+    if not early:
+        sc.run_phase([("net", net)], timeout=900.0)
+        setup_points = len(sc.points)
+        ok = w.state() == "transport" and w.responders[0].phase == "transport"
+    else:
+        setup_points = 0
+        ok = True
 
     def app():
+        if early:
+            # ... but after the connection has been announced: a disconnect that lands between the dispatcher's
+            # `_connected = True` and its onConnected() callback is a race inside the dispatcher, not a history of
+            # the property's alphabet (DESIGN 9.4, observations)
+            sc.wait_until(lambda: len(w.dispatchers) > 0 and w.net.connected, "first connection announced")
         w.stack.broadcastEvent(YowLayerEvent(YowNetworkLayer.EVENT_STATE_DISCONNECT, reason="application"))
         sc.wait_until(lambda: len(w.dispatchers) > 1 and w.state() == "transport" and w.responders[1].phase == "transport"
                       and not q.qsize(), "session up again")
@@ -83,7 +93,7 @@ def run_race(case, prefix):
     error = None
     if ok:
         try:
-            sc.run_phase([("app", app)], timeout=900.0)
+            sc.run_phase([("net", net), ("app", app)] if early else [("app", app)], timeout=900.0)
         except (S.HarnessStuck, S.ReplayDivergence) as e:
             error = e
     blocked = [(t.name, t.wait_desc) for t in sc.blocked()]
@@ -134,7 +144,19 @@ def run_race(case, prefix):
 def cases_for(tier):
     # "lines": statement-granularity scheduling points in the network, segments and noise layers and in
     # layers/__init__.py (a state write after an announcement has no call in between)
-    cases = [{"burst": 0, "nsend": 1}, {"burst": 1, "nsend": 1, "variant": "XX"}, {"burst": 0, "nsend": 1, "lines": True}]
+    # "early": the application disconnects while the first login is still in progress
+    cases = [{"burst": 0, "nsend": 1}, {"burst": 1, "nsend": 1, "variant": "XX"}, {"burst": 0, "nsend": 1, "lines": True},
+             {"burst": 0, "nsend": 1, "early": True}]
     if tier != "quick":
-        cases += [{"burst": 2, "nsend": 2}, {"burst": 1, "nsend": 1, "variant": "XX", "lines": True}]
+        cases += [{"burst": 2, "nsend": 2}, {"burst": 1, "nsend": 1, "variant": "XX", "lines": True},
+                  {"burst": 1, "nsend": 1, "early": True, "variant": "XX"}]
     return cases
+
+
+def phases_for(tier):
+    cases = cases_for(tier)
+    if tier == "quick":
+        return [{"name": "race-bound1", "cases": cases, "bound": 1, "free_bound": 2}]
+    # sized by measurement: an "early" case is 12 k executions at bound 1, the others 0.1-0.6 k (0.4 M together at bound 2)
+    return [{"name": "race-bound1", "cases": cases, "bound": 1, "free_bound": 2},
+            {"name": "race-bound2", "cases": [c for c in cases if not c.get("early")], "bound": 2, "free_bound": 2}]
